@@ -63,6 +63,10 @@ def openStep (script : ElemScript) (sels : List SelReg) (st : List OpenElem) (or
     | none => st
   | _ => st
 
+/-- How many open elements keep the handlers of selector `h` active (with multiplicity, should a
+matcher report an id twice). -/
+def openCount (sp : List OpenElem) (h : Nat) : Nat := (sp.map fun e => e.matched.count h).sum
+
 /-- Is handler `h` in scope: document-level (`n ≤ h`), or some open element matched selector `h`. -/
 def inScope (n : Nat) (st : List OpenElem) (h : Nat) : Bool :=
   decide (n ≤ h) || st.any fun e => e.matched.contains h
